@@ -47,9 +47,9 @@ class Machine:
     def concretize(s, t, what):
         if s.it is None: raise Undecodable('symbolic %s' % what)
         for _ in range(70):
-            sol = z3.Solver(); sol.add(*s.it.fork['pc'])
-            if sol.check() != z3.sat: raise Fault('infeasible path while concretising %s' % what)
-            val = sol.model().eval(t, model_completion=True).as_long()
+            from engine.irsym import min_feasible
+            val = min_feasible(s.it.fork['pc'], t)
+            if val is None: raise Fault('infeasible path while concretising %s' % what)
             if s.it.decide(z3.If(t == val, z3.BitVecVal(1, 1), z3.BitVecVal(0, 1))): return val
         raise Undecodable('too many values for %s' % what)
     def matches(s, w, mask, value):
